@@ -1,11 +1,23 @@
 /-
-  C04 — tokenizing only regroups characters: `tokens.create` neither loses, invents nor
-  reorders a character, produces no empty token, and never indexes out of range.
+  C04 — reading is lossless and a clean file is never rewritten.
+    1. tokenizing only regroups characters: `tokens.create` neither loses, invents nor reorders a
+       character, produces no empty token, and never indexes out of range;
+    2. the line layer (`read_vhdlfile`, `_processFile` up to `design_file.tokenize`, `get_lines`):
+       what `rstrip` removes, every line is classified without an IndexError, the values of a
+       classified line concatenate to the line — EXCEPT for one input shape on which
+       `comment.classify` is lossy (witness below, reproduced on the real code), `get_lines` of the
+       parsed file are the lines read (conditional on the one-for-one contract of the classifier
+       productions, checked per parsed file by harness/props_c04.py);
+    3. `apply_rules` writes iff `--fix` and some `_fix_violation` was invoked.
   ONLY property theorems and their non-vacuity examples live here.
 -/
 import VsgModel.Lex.Create
 import VsgModel.Lex.Tables
+import VsgModel.Lex.Lines
+import VsgModel.Engine.ApplyRules
 import VsgProofs.Lemmas.Lex
+import VsgProofs.Lemmas.Lines
+import VsgProofs.Lemmas.ApplyRules
 namespace Vsgm.C04
 open Vsgm Vsgm.Lex
 
@@ -123,5 +135,274 @@ example :
 
 /-- a quote pair whose lookup is exercised -/
 example : indexesOf sq ["'".toList, "1".toList, "'".toList] 0 = [] ++ 0 :: 2 :: [] := by decide
+
+/-! ## 2. the line layer -/
+
+/-- **what `rstrip` removes** (`read_vhdlfile`: `sLine.rstrip("\r\n")`): a suffix made of `\n` and
+    `\r` only — no other character of the line, nothing in front of it -/
+theorem stripEol_removes_only_line_ends (s : Str) :
+    ∃ t, s = stripEol s ++ t ∧ ∀ c ∈ t, c = '\n' ∨ c = '\r' :=
+  stripEol_suffix s
+
+/-- … and all of it: whatever run of `\n` / `\r` ends the line, the same line is read -/
+theorem stripEol_line_end_independent (s t : Str) (h : ∀ c ∈ t, c = '\n' ∨ c = '\r') :
+    stripEol (s ++ t) = stripEol s :=
+  stripEol_append_eol s t h
+
+/-- the second strip of `_processFile` (`rstrip("\n").rstrip("\r")`) finds nothing left to do on a
+    line delivered by `read_vhdlfile` -/
+theorem stripNlCr_after_read (s : Str) : stripNlCr (stripEol s) = stripEol s :=
+  stripNlCr_stripEol s
+
+/-- the two strips are not the same function (the first argument is a character set, the second
+    a sequence of two strips): they differ on a line handed to `vhdlFile` directly -/
+theorem stripNlCr_ne_stripEol : stripNlCr "a\r\n\r".toList ≠ stripEol "a\r\n\r".toList := by decide
+
+/-- **a file is read as the same lines whatever its line ends are**: text made of lines without
+    `\r` / `\n` joined by `\n`, `\r\n` or a lone `\r`, with or without a final line end, is read
+    by `read_vhdlfile` as exactly those lines -/
+theorem readLines_line_end_independent (eol : Str) (he : IsEol eol) (ls : List Str) (last : Str)
+    (hls : ∀ l ∈ ls, NoEol l) (hlast : NoEol last) :
+    readLines (joinEol eol ls ++ last) = ls ++ (if last.isEmpty then [] else [last]) :=
+  readLines_joinEol eol he ls last hls hlast
+
+/-- hence **what C04 cannot promise about a file that IS rewritten**: `write_vhdl_file` writes
+    `"\n".join(lines) + "\n"` (or the configured `linesep`), so a CRLF file, a file with lone
+    `\r` line ends and a file without a final line end are NOT reproduced byte for byte even when
+    every line is.  C04 is about the files that are not rewritten. -/
+theorem rewrite_normalises_line_ends :
+    joinEol ['\n'] (readLines "a\r\nb\r\n".toList) ≠ "a\r\nb\r\n".toList ∧
+    joinEol ['\n'] (readLines "a\rb\r".toList) ≠ "a\rb\r".toList ∧
+    joinEol ['\n'] (readLines "a\nb".toList) ≠ "a\nb".toList ∧
+    joinEol ['\n'] (readLines "a\nb\n".toList) = "a\nb\n".toList := by decide
+
+/-- only `\n`, `\r\n`, `\r` end a line: form feed, vertical tab, U+0085, U+2028 stay inside it -/
+theorem readLines_other_separators :
+    readLines [Char.ofNat 97, Char.ofNat 12, Char.ofNat 98, Char.ofNat 11, Char.ofNat 0x85, Char.ofNat 0x2028, '\n'] =
+      [[Char.ofNat 97, Char.ofNat 12, Char.ofNat 98, Char.ofNat 11, Char.ofNat 0x85, Char.ofNat 0x2028]] := by
+  decide
+
+/-- **no IndexError in the line loop of `_processFile`**: for every table, regexp answer, incoming
+    state and line, `blank / whitespace / comment / preprocessor / pragma.classify` return -/
+theorem classifyLine_total (T : LexTables) (rx : PragmaRx) (st : LState) (raw : Str) :
+    ∃ r, classifyLine T rx st raw = some r :=
+  Lex.classifyLine_total T rx st raw
+
+/-- **a classified line concatenates to the line** — for every incoming state (inside a delimited
+    comment or not, inside a `vhdl_comp_off` region or not) and every line, EXCEPT the line that
+    is read inside a delimited comment, whose first token is `/` and whose last token ends with
+    `*` (`SlashStarLine`, see `classifyLine_not_lossless`) -/
+theorem classifyLine_flatten_partial (T : LexTables)
+    (hbd : ∀ c, T.lowerBoxd c = true → T.isDigit c = false) (rx : PragmaRx) (st st' : LState)
+    (raw : Str) (objs : List LTok) (h : classifyLine T rx st raw = some (objs, st'))
+    (hok : ¬ SlashStarLine T st raw) : (vals objs).flatten = stripNlCr raw :=
+  Lex.classifyLine_flatten T hbd rx st st' raw objs h hok
+
+/-- in particular unconditionally outside delimited comments -/
+theorem classifyLine_flatten_outside (T : LexTables)
+    (hbd : ∀ c, T.lowerBoxd c = true → T.isDigit c = false) (rx : PragmaRx) (st st' : LState)
+    (raw : Str) (objs : List LTok) (h : classifyLine T rx st raw = some (objs, st'))
+    (hout : st.inside = false) : (vals objs).flatten = stripNlCr raw :=
+  Lex.classifyLine_flatten T hbd rx st st' raw objs h (not_slashStarLine_outside T st raw hout)
+
+/-- **the full statement is FALSE** for the faithful model: inside a delimited comment the line
+    `/ foo *` is classified as `ending("*/") whitespace(" ") item("foo") whitespace(" ") text("")`:
+    at `iToken = 0` `ending_token_should_exist` reads `lObjects[iToken - 1]` = `lObjects[-1]`, the
+    LAST token, and `remove_last_star_from_previous_token` overwrites it.  The comment is closed
+    and the line reads `*/ foo `.  Reproduced on the real code by harness/props_c04.py. -/
+theorem classifyLine_not_lossless :
+    ∃ objs st', classifyLine pyTables ⟨false, false, false⟩ ⟨true, false⟩ "/ foo *".toList = some (objs, st') ∧
+      (vals objs).flatten = "*/ foo ".toList ∧ (vals objs).flatten ≠ "/ foo *".toList ∧
+      st'.inside = false ∧ SlashStarLine pyTables ⟨true, false⟩ "/ foo *".toList := by
+  refine ⟨[⟨.dcEnd, "*/".toList⟩, ⟨.ws, " ".toList⟩, ⟨.item, "foo".toList⟩, ⟨.ws, " ".toList⟩, ⟨.dcText, []⟩],
+    ⟨false, false⟩, ?_, ?_, ?_, rfl, ?_⟩ <;> decide +kernel
+
+/-- **blank lines**: a line without tokens becomes exactly one token with the EMPTY value — a
+    `blank_line`; inside a delimited comment a `delimited_comment.text("")`; inside a
+    `vhdl_comp_off` region a `pragma.ignore("")`.  (So "no empty token" holds for `tokens.create`,
+    not for the classified line.) -/
+theorem classifyLine_blank (rx : PragmaRx) (st : LState) (raw : Str) (h : stripNlCr raw = []) :
+    classifyLine pyTables rx st raw =
+      some ([⟨if st.region then .pragmaIgnore else if st.inside then .dcText else .blank, []⟩], st) :=
+  classifyLine_of_no_tokens pyTables rx st raw (by rw [h]; decide +kernel)
+
+/-- **no empty token in a non-empty line, except delimited-comment text**: in the classified form
+    of a line that has tokens, a token with the empty value is a `delimited_comment.text` (made by
+    `remove_last_star_from_previous_token` out of a token `*`; the witness of
+    `classifyLine_not_lossless` contains one) or, inside a `vhdl_comp_off` region, the
+    `pragma.ignore` that replaces it — never an item, whitespace, comment, delimiter, pragma or
+    preprocessor token -/
+theorem classifyLine_no_empty (T : LexTables) (rx : PragmaRx) (st st' : LState) (raw : Str)
+    (objs : List LTok) (h : classifyLine T rx st raw = some (objs, st'))
+    (hne : create T (stripNlCr raw) ≠ []) :
+    ∀ t ∈ objs, t.val = [] → t.kind = .dcText ∨ t.kind = .pragmaIgnore :=
+  classifyLine_noEmpty T rx st st' raw objs h hne
+
+/-- the whole loop of `_processFile` returns -/
+theorem processLines_total (T : LexTables) (rx : Str → PragmaRx) (st : LState) (ls : List Str) :
+    ∃ objs, processLines T rx st ls = some objs :=
+  Lex.processLines_total T rx st ls
+
+/-- **emit ∘ parse = identity on the lines as read** (conditional): if the classifier productions
+    and post passes are value preserving (contract `ValuePreserving` = `Refines`: every token is
+    replaced by a non-empty group of tokens whose values concatenate to its value, carriage returns
+    by one carriage return, nothing else becomes one — checked on every parsed file by
+    harness/props_c04.py; the strict one-for-one form `OneForOne` is a special case,
+    `oneForOne_valuePreserving`, and is FALSE on 146 of 2604 accepted corpus files: dotted names
+    are split) and no line is a `SlashStarLine` in the state in which it is read, then
+    `get_lines()` of the parsed file is `""` followed by the lines handed to `vhdlFile` with their
+    line ends stripped -/
+theorem getLines_processLines_partial (T : LexTables)
+    (hbd : ∀ c, T.lowerBoxd c = true → T.isDigit c = false) (rx : Str → PragmaRx)
+    (classify : List LTok → List Tok) (hvp : ValuePreserving classify) (st : LState) (ls : List Str)
+    (hok : LinesOk T rx st ls) :
+    ∃ objs, processLines T rx st ls = some objs ∧
+      getLines (classify objs) = [] :: ls.map stripNlCr := by
+  obtain ⟨objs, h⟩ := Lex.processLines_total T rx st ls
+  refine ⟨objs, h, ?_⟩
+  rw [getLines_of_valuePreserving objs (classify objs) (hvp objs)]
+  exact getLinesL_processLines T hbd rx st ls objs h hok
+
+/-- one-for-one replacement (same length, same values, carriage returns stay) is value preserving -/
+theorem oneForOne_valuePreserving (inp : List LTok) (out : List Tok) (h : OneForOne inp out) :
+    ValuePreservingOn inp out :=
+  refines_of_oneForOne inp out h
+
+/-- the same with the contract only on the file at hand -/
+theorem getLines_of_parsed_partial (T : LexTables)
+    (hbd : ∀ c, T.lowerBoxd c = true → T.isDigit c = false) (rx : Str → PragmaRx) (st : LState)
+    (ls : List Str) (objs : List LTok) (out : List Tok) (h : processLines T rx st ls = some objs)
+    (hvp : ValuePreservingOn objs out) (hok : LinesOk T rx st ls) :
+    getLines out = [] :: ls.map stripNlCr := by
+  rw [getLines_of_valuePreserving objs out hvp]
+  exact getLinesL_processLines T hbd rx st ls objs h hok
+
+/-- for the lines `read_vhdlfile` delivers the strip is the identity: `get_lines()[1:]` IS the list
+    that was read -/
+theorem getLines_of_read_file_partial (rx : Str → PragmaRx) (classify : List LTok → List Tok)
+    (hvp : ValuePreserving classify) (text : Str) (hok : LinesOk pyTables rx LState.init (readLines text)) :
+    ∃ objs, processLines pyTables rx LState.init (readLines text) = some objs ∧
+      getLines (classify objs) = [] :: readLines text := by
+  obtain ⟨objs, h, hg⟩ := getLines_processLines_partial pyTables pyTables_hyps.1 rx classify hvp
+    LState.init (readLines text) hok
+  refine ⟨objs, h, ?_⟩
+  rw [hg]
+  congr 1
+  conv => rhs; rw [← List.map_id (readLines text)]
+  unfold readLines
+  rw [List.map_map, List.map_map]
+  apply List.map_congr_left
+  intro l _
+  simp only [Function.comp, id]
+  exact stripNlCr_stripEol l
+
+/-- a state-free sufficient condition for `LinesOk`: no line's first token is `/` -/
+theorem linesOk_of_no_leading_slash (T : LexTables) (rx : Str → PragmaRx) (st : LState) (ls : List Str)
+    (h : ∀ l ∈ ls, (create T (stripNlCr l)).head? ≠ some slash) : LinesOk T rx st ls :=
+  Lex.linesOk_of_no_leading_slash T rx st ls h
+
+/-- **the unconditional statement is FALSE**: the three-line file `/*`, `/ foo *`, `*/` is emitted as
+    `/*`, `*/ foo `, `*/` even by the identity classifier -/
+theorem getLines_processLines_not_lossless :
+    ∃ objs, processLines pyTables (fun _ => ⟨false, false, false⟩) LState.init
+        ["/*".toList, "/ foo *".toList, "*/".toList] = some objs ∧
+      getLinesL objs = [[], "/*".toList, "*/ foo ".toList, "*/".toList] := by
+  refine ⟨[⟨.dcBegin, "/*".toList⟩, crTok, ⟨.dcEnd, "*/".toList⟩, ⟨.ws, " ".toList⟩, ⟨.item, "foo".toList⟩,
+    ⟨.ws, " ".toList⟩, ⟨.dcText, []⟩, crTok, ⟨.item, "*/".toList⟩, crTok], ?_, ?_⟩ <;> decide +kernel
+
+/-! ## 3. the file is written iff `--fix` and some `_fix_violation` ran -/
+
+/-- **any run without `--fix` leaves the file system alone** -/
+theorem no_fix_no_write (rs : List Rule) (fixPhase : Nat) (skip : List Nat) (fo : Option FixOnly)
+    (post : List Tok → List Tok) (f : List Tok) :
+    applyRulesWrite false rs fixPhase skip fo post f = none := rfl
+
+/-- `rule_list.had_violations` is set iff at least one `_fix_violation` was invoked during the run
+    (`Rule.fix` sets it inside the loop over the violations, `rule_list.fix` ORs the rules) -/
+theorem hadViolations_iff_fixV_invoked (rs : List Rule) (fixPhase : Nat) (skip : List Nat)
+    (fo : Option FixOnly) (post : List Tok → List Tok) (f : List Tok) :
+    (fixRun rs fixPhase skip fo post f).2 = true ↔ 0 < (fixRunCount rs fixPhase skip fo post f).2 :=
+  Lemmas.fixRun_had_iff rs fixPhase skip fo post f
+
+/-- the instrumented run is the run -/
+theorem fixRunCount_is_fixRun (rs : List Rule) (fixPhase : Nat) (skip : List Nat)
+    (fo : Option FixOnly) (post : List Tok → List Tok) (f : List Tok) :
+    (fixRunCount rs fixPhase skip fo post f).1 = fixRun rs fixPhase skip fo post f :=
+  Lemmas.fixRunCount_fst rs fixPhase skip fo post f
+
+/-- **the write happens iff `--fix` and some `_fix_violation` ran** -/
+theorem write_iff (fix : Bool) (rs : List Rule) (fixPhase : Nat) (skip : List Nat) (fo : Option FixOnly)
+    (post : List Tok → List Tok) (f : List Tok) :
+    (applyRulesWrite fix rs fixPhase skip fo post f).isSome = true ↔
+      fix = true ∧ 0 < (fixRunCount rs fixPhase skip fo post f).2 := by
+  rw [← hadViolations_iff_fixV_invoked]
+  unfold applyRulesWrite
+  cases fix with
+  | false => simp
+  | true =>
+    simp only [if_true, true_and]
+    split <;> simp_all
+
+/-- **a clean file is never rewritten**: a `--fix` run in which no `_fix_violation` is invoked
+    does not write — whatever the rules, phases, `--fix_only` and the post-phase-1 normalisation
+    (which may change the token list in memory: it does not set `had_violations`) -/
+theorem clean_file_no_write (fix : Bool) (rs : List Rule) (fixPhase : Nat) (skip : List Nat)
+    (fo : Option FixOnly) (post : List Tok → List Tok) (f : List Tok)
+    (h : (fixRunCount rs fixPhase skip fo post f).2 = 0) :
+    applyRulesWrite fix rs fixPhase skip fo post f = none := by
+  have := write_iff fix rs fixPhase skip fo post f
+  cases hw : applyRulesWrite fix rs fixPhase skip fo post f with
+  | none => rfl
+  | some w =>
+    rw [hw] at this
+    have := this.1 rfl
+    omega
+
+/-- the converse, for the record (DESIGN §7): a `_fix_violation` that ran sets `had_violations`
+    even if it returned the tokens it was given — the file is then rewritten although no rule
+    changed anything.  Witness: one fixable error rule with one violation whose fix is the identity. -/
+theorem noop_fix_still_writes :
+    let sem : RuleSem := ⟨fun _ => [⟨1, 0, [], 0⟩], fun v => v.toks⟩
+    let r : Rule := (⟨"x_001", 1, 0, false, true, true, false⟩, sem)
+    (fixRun [r] 7 [] none id []).1 = [] ∧ (applyRulesWrite true [r] 7 [] none id []).isSome = true := by
+  decide +kernel
+
+/-! ### non-vacuity of the line-layer hypotheses -/
+
+/-- the identity classifier satisfies the contract -/
+example : ValuePreserving (fun l => l.map fun t => (⟨0, t.kind.toKind, t.val⟩ : Tok)) := by
+  intro l
+  apply refines_of_oneForOne
+  constructor
+  · simp [List.map_map, Function.comp_def]
+  · rw [List.map_map]
+    apply List.map_congr_left
+    intro t _
+    cases t with
+    | mk k v => cases k <;> rfl
+
+/-- a splitting classifier satisfies it too: `ieee.numeric_std` as three tokens -/
+example : ValuePreservingOn [⟨.item, "use".toList⟩, ⟨.ws, " ".toList⟩, ⟨.item, "ieee.numeric_std".toList⟩, crTok]
+    [⟨0, .code, "use".toList⟩, ⟨0, .ws, " ".toList⟩, ⟨0, .code, "ieee".toList⟩, ⟨0, .code, ".".toList⟩,
+     ⟨0, .code, "numeric_std".toList⟩, ⟨0, .cr, "\n".toList⟩] := by
+  refine .tok _ [_] _ _ rfl (by simp) (by decide) rfl ?_
+  refine .tok _ [_] _ _ rfl (by simp) (by decide) rfl ?_
+  refine .tok _ [_, _, _] _ _ rfl (by simp) (by decide) (by decide) ?_
+  exact .cr _ _ _ _ rfl rfl .nil
+
+example : LinesOk pyTables (fun _ => ⟨false, false, false⟩) LState.init
+    ["a <= b; -- c".toList, "".toList, "/* x".toList, "y */ z".toList] :=
+  linesOk_of_no_leading_slash _ _ _ _ (by decide +kernel)
+
+example : ∃ st', classifyLine pyTables ⟨false, false, false⟩ LState.init "a <= b; -- c /* d ".toList =
+    some ([⟨.item, "a".toList⟩, ⟨.ws, " ".toList⟩, ⟨.item, "<=".toList⟩, ⟨.ws, " ".toList⟩, ⟨.item, "b".toList⟩,
+      ⟨.item, ";".toList⟩, ⟨.ws, " ".toList⟩, ⟨.comment, "-- c /* d".toList⟩, ⟨.ws, " ".toList⟩], st') :=
+  ⟨LState.init, by decide +kernel⟩
+
+/-- `--` inside a delimited comment is text; everything from the first to the last text token of the
+    line is merged; the state carries over -/
+example : classifyLine pyTables ⟨false, false, false⟩ ⟨true, false⟩ "a -- b */ c".toList =
+    some ([⟨.dcText, "a -- b ".toList⟩, ⟨.dcEnd, "*/".toList⟩, ⟨.ws, " ".toList⟩, ⟨.item, "c".toList⟩],
+      ⟨false, false⟩) := by decide +kernel
 
 end Vsgm.C04
